@@ -17,6 +17,7 @@ import (
 	"path/filepath"
 	"sort"
 	"strings"
+	"sync/atomic"
 	"syscall"
 	"time"
 
@@ -330,8 +331,22 @@ func Dial(addr string, cfg *tls.Config, srcIP string) (*grpc.ClientConn, error) 
 	return grpc.NewClient(addr, opts...)
 }
 
-// FreePort returns a port that was free on the address a moment ago.
+var portSeq atomic.Uint32
+
+// FreePort returns a port that was free on the address a moment ago.  Ports are taken from below the
+// ephemeral range (so that outgoing connections of other processes cannot grab them in the meantime) and
+// spread by process id (so that concurrent runs of the harness do not pick the same ones).
 func FreePort(ip string) int {
+	for try := 0; try < 200; try++ {
+		n := portSeq.Add(1)
+		port := 20000 + int((uint32(os.Getpid())*131+n*17+uint32(try)*977)%11000)
+		l, err := net.Listen("tcp", fmt.Sprintf("%s:%d", ip, port))
+		if err != nil {
+			continue
+		}
+		l.Close()
+		return port
+	}
 	l, err := net.Listen("tcp", ip+":0")
 	if err != nil {
 		return 0
